@@ -1081,7 +1081,7 @@ func buildL0Table(iter y.Iterator, dropPrefixes [][]byte, bopts table.Options) *
 
 	b := table.NewTableBuilder(bopts)
 	for iter.Rewind(); iter.Valid(); iter.Next() {
-		if len(dropPrefixes) > 0 && hasAnyPrefixes(iter.Key(), dropPrefixes) {
+		if len(dropPrefixes) > 0 && hasAnyPrefixes(y.ParseKey(iter.Key()), dropPrefixes) {
 			continue
 		}
 		vs := iter.Value()
